@@ -39,6 +39,9 @@ def cases(tier):
             if all(p == 0 for p in pat) or all(p == 2 for p in pat):
                 continue  # strictly monotonic
             out.append(dict(kind="bins", m=m, pat=list(pat)))
+    for N in (2, 3):
+        for frm in ("center", "left", "outer"):
+            out.append(dict(kind="metric-edits", N=N, frm=frm))
     out.append(dict(kind="transform"))
     out.append(dict(kind="ctor"))
     return out
@@ -57,7 +60,7 @@ def must_raise(W, label, fn, detail):
 
 
 def case(W, cfg):
-    return {"edits": case_edits, "bins": case_bins, "transform": case_transform, "ctor": case_ctor}[cfg["kind"]](W, cfg)
+    return {"metric-edits": case_metric_edits, "edits": case_edits, "bins": case_bins, "transform": case_transform, "ctor": case_ctor}[cfg["kind"]](W, cfg)
 
 
 def case_edits(W, cfg):
@@ -104,6 +107,40 @@ def case_edits(W, cfg):
                     for w in BAD_WORDS:
                         must_raise(W, "unknown-boundary-word", lambda w=w: f(da, "X", to=valid_to[0], boundary=w), "%s boundary=%r" % (op, w))
                         must_raise(W, "unknown-boundary-word", lambda w=w: f(da, "X", to=valid_to[0], boundary={"X": w}), "%s boundary={'X': %r}" % (op, w))
+
+
+def case_metric_edits(W, cfg):
+    """the metric-based operations refuse the same ill-posed data"""
+    N, frm = cfg["N"], cfg["frm"]
+    axes = {"X": ("center", "left", "outer"), "Y": ("center", "left")}
+    ds = make_ds(axes, N, {"t": 2})
+    dims = axis_dims("X", axes["X"])
+    for p, d in dims.items():
+        ds["dx_" + p] = ((d,), np.arange(1, plen(p, N) + 1) * 1.0)
+    ds["dy"] = (("yc",), np.arange(1, N + 1) * 1.0)
+    grid = make_grid(ds, axes, periodic=False, boundary="extend", metrics={("X",): ["dx_" + p for p in dims], ("Y",): ["dy"]})
+    a = W.data("a", (2, plen(frm, N)))
+    da = xr.DataArray(a, dims=["t", dims[frm]])
+    other = [p for p in dims if p != frm][0]
+    two = xr.DataArray(W.data("b", (plen(other, N), plen(frm, N))), dims=[dims[other], dims[frm]])
+    nodim = xr.DataArray(a[:, 0], dims=["t"])
+    ops = {"integrate": lambda x, ax: grid.integrate(x, ax), "average": lambda x, ax: grid.average(x, ax), "cumint": lambda x, ax: grid.cumint(x, ax, boundary="fill"),
+           "derivative": lambda x, ax: grid.derivative(x, ax), "get_metric": lambda x, ax: grid.get_metric(x, ax if isinstance(ax, (list, tuple)) else (ax,))}
+    for name, f in ops.items():
+        try:
+            with warnings.catch_warnings():
+                warnings.simplefilter("ignore")
+                r = f(da, "X")
+            W.require("valid-call-answered", isinstance(r, xr.DataArray), name)
+        except Exception as e:  # noqa
+            if not (name in ("cumint", "derivative") and frm != "center"):
+                W.require("valid-call-answered", False, "%s on %s raised %s: %s" % (name, frm, type(e).__name__, str(e)[:80]))
+        must_raise(W, "axis-the-grid-lacks", lambda: f(da, "Q"), "%s along axis 'Q'" % name)
+        must_raise(W, "axis-the-grid-lacks", lambda: f(da, ["X", "Q"]), "%s along ['X','Q']" % name)
+        must_raise(W, "data-lacks-the-axis-dimension", lambda: f(nodim, "X"), "%s on data without an X dimension" % name)
+        must_raise(W, "data-lacks-the-axis-dimension", lambda: f(da, "Y"), "%s along Y on data without a Y dimension" % name)
+        must_raise(W, "data-lacks-the-axis-dimension", lambda: f(da, ["X", "Y"]), "%s along ['X','Y'] on data without a Y dimension" % name)
+        must_raise(W, "data-has-two-dimensions-of-the-axis", lambda: f(two, "X"), "%s on data with dims %s" % (name, two.dims))
 
 
 def case_ctor(W, cfg):
